@@ -246,8 +246,8 @@ def _pump_map_call(f):
             b = lam.body
             if isinstance(b, ast.Call) and isinstance(b.func, ast.Attribute) and b.func.attr == "get_pressure" \
                     and isinstance(b.func.value, ast.Name) and b.func.value.id == x and len(b.args) == 1 \
-                    and isinstance(b.args[0], ast.Name) and b.args[0].id == y and isinstance(n.args[2], ast.Name):
-                return (x, U(n.args[1]), n.args[2].id)
+                    and isinstance(b.args[0], ast.Name) and b.args[0].id == y:
+                return (x, U(n.args[1]), n.args[2])
         # [f.get_pressure(q) for f, q in zip(fcts, vol)]
         if isinstance(n, ast.ListComp) and len(n.generators) == 1 and isinstance(n.generators[0].iter, ast.Call) \
                 and callee_name(n.generators[0].iter) == "zip" and len(n.generators[0].iter.args) == 2 \
@@ -258,8 +258,8 @@ def _pump_map_call(f):
             za = n.generators[0].iter.args
             if isinstance(b, ast.Call) and isinstance(b.func, ast.Attribute) and b.func.attr == "get_pressure" \
                     and isinstance(b.func.value, ast.Name) and b.func.value.id == x and len(b.args) == 1 \
-                    and isinstance(b.args[0], ast.Name) and b.args[0].id == y and isinstance(za[1], ast.Name):
-                return (x, U(za[0]), za[1].id)
+                    and isinstance(b.args[0], ast.Name) and b.args[0].id == y:
+                return (x, U(za[0]), za[1])
     return None
 
 
@@ -324,7 +324,14 @@ def r3_3(run):
     for gas in (False, True):
         ki, k = hook_summary(ix, c, "adaption_before_derivatives_hydraulic", {"fluid.is_gas": gas}, partial=True)
         mp = _pump_map_call(f)
-        vol = k.env.get(mp[2]) if mp else None
+        vol = None
+        if mp:
+            # the volume-flow argument, evaluated in the state the (partial) summary reached: a local name or any expression
+            try:
+                st_ = {"fi": f, "env": k.env, "G": BExpr.true(), "loopvars": set(), "kernel": k, "mask": None, "returned": False}
+                vol = ki.eval(mp[2], st_)
+            except Exception as ex:     # noqa
+                vol = None
         fl = "gas" if gas else "liquid"
         if vol is None:
             run.ob("pump|%s|curve-argument-found" % fl, False, "the volume flow handed to get_pressure is computed", run.where(f, f.node),
